@@ -484,6 +484,8 @@ class WriteSystem:
                 outside = True
             else:
                 fixed[a] = m
+        if op["k"] % 2 == 1:
+            query = dict(reversed(list(query.items())))  # the dimensions named in another order than the array's
         mval, ival = op_value(self.shape, op)
         expected = list(flat) if outside else am.write_model(flat, self.shape, fixed, mval)
         if holder[0] is None:
